@@ -309,12 +309,12 @@ ROUTES = [
 ]
 
 
-def r5(ctx, fs):
-    rid = 'C13.R5'
+def r5(ctx, fs, rid='C13.R5'):
     ctx.rule(rid, 'core::eq(bool,bool) / conj / disj / exct_one build their item from the namesake sat_core constructor applied to the literals of all operands, negate from !l', floor=5)
     for name, params, target in ROUTES:
         f = fs.fn(name, params=params) if params else fs.fn(name)
         env = LocalEnv(f)
+        env.param_roles(['left', 'right'] if len(f.get('params') or ()) == 2 else ['var'])        # positional: parameter names are irrelevant
         calls = [n.get('callee_name') for n in f.nodes() if (n.get('callee_name') or '').startswith(SC + 'new_')]
         if isinstance(target, str):
             ok = calls == [target]
@@ -326,7 +326,7 @@ def r5(ctx, fs):
             if name.rsplit('::', 1)[-1] in ('conj', 'disj', 'exct_one'):
                 vb = VecBuilder(f, env)
                 its = [i for v in vb.items.values() for i in v]
-                pname = f['params'][0]['name']
+                pname = 'var'
                 ok2 = any(i[0] == 'ctx' and i[1] and i[1][0][0] == 'each' and i[1][0][1] == pname and i[2] == ('.', i[1][0][2], 'l') and len(i[1]) == 1 for i in its) and len(its) == 1
                 if not ok2:
                     ctx.finding(rid, f.id, 'operands', '%s does not pass the literal of every operand' % f.name, loc=f.loc, expect='for (e : exprs) lits.push_back(e->l)')
